@@ -95,6 +95,13 @@ ZUntilWhy(r) ==
        THEN (IF r.st # "ok" THEN "Zoned::until failed"
              ELSE IF r.span # ExpTimeSpan(T, 5) THEN "Zoned::until on one civil day is not the elapsed time"
              ELSE First(<<sincew, durw>>))
+       \* civil dates ordered against the instants (the clock was set back across midnight in between): no
+       \* calendar unit of the right sign fits; the difference is the elapsed time (settled when under a day)
+       ELSE IF (sign > 0 /\ cb[1] < ca[1]) \/ (sign < 0 /\ cb[1] > ca[1])
+       THEN (IF r.st # "ok" THEN "Zoned::until failed"
+             ELSE IF ZAddSettled(z, a, r.span) /\ ZAdd(z, a, r.span) # b THEN "a + (a until b) # b"
+             ELSE IF BLt(BAbs(T), BDayNs) /\ r.span # ExpTimeSpan(T, 5) THEN "Zoned::until across a set-back over midnight is not the elapsed time"
+             ELSE First(<<sincew, durw>>))
        ELSE LET dc == DayCorr(z, a, ca, cb, b, sign) IN
             IF dc < 0 THEN ""     \* no admissible intermediate day (exotic zone): unsettled
             ELSE LET dayX == cb[1] - dc * sign
